@@ -15,7 +15,7 @@ func init() {
 	register("C06", "model_checking", checkC06)
 }
 
-const repoFontConfig = "/repo/font_config.json"
+var repoFontConfig = "/repo/font_config.json"
 
 // realFormat calls the real FormatText with the parameters a format() call with
 // at most the two positional parameters resolves to (font config defaults).
